@@ -54,7 +54,7 @@ def main():
         entry = dict(path=b.path, props=ps, summary=s.split('\n'))
         if str(b.raw.get('vis', '')).startswith('Restricted') and not b.raw.get('impl_trait') and not (b.raw.get('trait') and not b.raw.get('impl')):
             entry['private'] = True     # a private helper: if it disappears, its callers' summaries cover the behaviour
-        cs = rules_sem.pure_lin_cases(c, b.path)
+        cs = rules_sem.pure_lin_cases(c, b.path, allow_calls=True)
         if cs is not None:
             entry['cases'] = repr(cs)      # guarded linear cases: lets a textually different summary be proved equal
         out.append(entry)
